@@ -10,6 +10,7 @@ import (
 	"testing/synctest"
 	"time"
 
+	"github.com/DataDog/datadog-traceroute/common"
 	"github.com/DataDog/datadog-traceroute/result"
 	"github.com/DataDog/datadog-traceroute/traceroute"
 )
@@ -111,6 +112,36 @@ func labLife(e labEnv) {
 						continue
 					}
 					put(op, k, class)
+				}
+			}
+		}
+	}
+	// kind 16: a SendProbe that is already in flight when the destination answer is processed, and then fails
+	//   input (16 serial k in_flight_ns dest_delay_ns)   impl (status cause_kept result_nil)
+	for _, serial := range []bool{false, true} {
+		for k := 1; k <= 4; k++ {
+			for _, dur := range []time.Duration{0, 3 * time.Millisecond, 40 * time.Millisecond} {
+				for _, dd := range []time.Duration{1*time.Millisecond + 7, 12*time.Millisecond + 7, 500*time.Millisecond + 7} {
+					var st int
+					var kept, rn bool
+					synctest.Test(e.t, func(t *testing.T) {
+						d := newScriptDriver(!serial, []scriptEntry{{ttl: 1, delay: dd, ip: 7, dest: true}, {ttl: 2, delay: dd, ip: 8}})
+						d.failSend, d.sendErr, d.sendDur = k, injectedCause, dur
+						tp := common.TracerouteParams{MinTTL: 1, MaxTTL: 5, TracerouteTimeout: 250*time.Millisecond + 500, PollFrequency: 20 * time.Millisecond, SendDelay: 10 * time.Millisecond}
+						var res []*common.ProbeResponse
+						var err error
+						if serial {
+							res, err = common.TracerouteSerial(context.Background(), d, common.TracerouteSerialParams{TracerouteParams: tp})
+						} else {
+							res, err = common.TracerouteParallel(context.Background(), d, common.TracerouteParallelParams{TracerouteParams: tp})
+						}
+						if err != nil {
+							st = 1
+						}
+						kept, rn = errors.Is(err, injectedCause), res == nil
+					})
+					w.put(L(sxInt(16), sxBool(serial), sxInt(int64(k)), sxInt(int64(dur)), sxInt(int64(dd))), L(sxInt(int64(st)), sxBool(kept), sxBool(rn)))
+					tags["send_fails_in_flight"]++
 				}
 			}
 		}
